@@ -261,6 +261,18 @@ def run(m, rep, tier):
                     return True
             return False
 
+        undecided10 = []
+
+        def _local_null_known(ps):
+            for (op, x, y) in ps.known:
+                xi = f.get(x) if isinstance(x, str) else None
+                if op == 'eq' and y == 'null' and xi is not None and xi.op == 'load':
+                    r = resolve_addr(f, xi.o[0]).root
+                    ri = f.get(r) if isinstance(r, str) else None
+                    if ri is not None and ri.op == 'alloca':
+                        return True
+            return False
+
         def transfer10(ins, st, ps):
             if ins.op == 'call' and ins.x.get('noreturn'):
                 return None
@@ -281,6 +293,11 @@ def run(m, rep, tier):
                     equal = True
                 may_grow = not equal and not shrinks and not ge
                 may_shrink = not equal and not grows and not le
+                # the function that would have to run was looked up in a table built on the stack (by direction) and that
+                # entry was found NULL: which of the two it was is not decided here
+                if (may_grow or may_shrink) and _local_null_known(ps):
+                    undecided10.append(ins.loc())
+                    may_grow = may_shrink = False
                 if may_grow and not _null_known(ps, 'elem.xtor.cons'):
                     bad10.append('the count is set to the request at %s on a path on which elements may come into scope while a constructor may be '
                                  'registered: they are never constructed' % ins.loc())
@@ -303,6 +320,9 @@ def run(m, rep, tier):
                 v10.violation('cstl_vector_resize', '; '.join(sorted(set(bad10))[:2]), floc(m, f), {})
             elif not res.exits:
                 v10.undecided('cstl_vector_resize', 'no return reached', floc(m, f))
+            elif undecided10:
+                v10.ok('cstl_vector_resize', 'NOT DECIDED for the direct count store at %s (the function to run is read from a stack table); every count '
+                       'step is in the direction of the request' % undecided10[0], floc(m, f))
             else:
                 v10.ok('cstl_vector_resize', 'every count step is in the direction of the request (%d exit state(s))' % len(res.exits), floc(m, f))
         except typestate.Limit as e:
